@@ -625,6 +625,11 @@ def ddl_facts(prog, rep, rule="SCHEMA"):
         rep.error("anchor vanished: CREATE TABLE buckets/events")
         return
     rep.check("unique" in b.stmt.coldefs.get("id", ()), rule, "SqliteStorage.__init__", "buckets.id UNIQUE", "", "buckets.id is not UNIQUE: the scoping sub-select may return several rows", b.loc())
+    coll = sorted(o for o in b.stmt.coldefs.get("id", ()) if o.startswith("collate:") and o != "collate:BINARY")
+    rep.check(not coll, rule, "SqliteStorage.__init__", "buckets.id compared exactly", "no collation on the key column", f"buckets.id is declared {coll}: `WHERE id = ?` then matches ids that differ in case / trailing blanks, so an id that names no bucket is answered with (updates, deletes) another bucket's row, and two such ids cannot both be created", b.loc())
+    for mname_, fld_ in (("BucketModel", "id"),):
+        v_ = prog.cls(mname_).attrs.get(fld_)
+        rep.check(v_ is None or "collation" not in norm(v_), rule, mname_, f"{mname_}.{fld_} compared exactly", "no collation on the key column", f"{mname_}.{fld_} declares a collation: ids that differ only in case select the same row", b.loc())
     eo = e.stmt.coldefs.get("id", set())
     rep.check("pk" in eo and "autoinc" in eo, rule, "SqliteStorage.__init__", "events.id PRIMARY KEY AUTOINCREMENT", "", "events.id is not an AUTOINCREMENT primary key: ids of deleted events can be reused", e.loc())
     for mname, fld, want in (("BucketModel", "id", "unique"), ("EventModel", "id", "AutoField"), ("BucketModel", "key", "primary_key")):
